@@ -133,7 +133,8 @@ SO3TangentBase<_Derived>::exp(OptJacobianRef J_m_t) const
       const LieAlg W = hat();
 
       J_m_t->setIdentity();
-      J_m_t->noalias() -= (Scalar(1.0) - cos(theta)) / theta_sq * W;
+      // 1 - cos(theta) = 2 sin^2(theta/2), without cancellation for small theta
+      J_m_t->noalias() -= Scalar(2) * sin(theta / Scalar(2)) * sin(theta / Scalar(2)) / theta_sq * W;
       J_m_t->noalias() += (theta - sin(theta)) / (theta_sq * theta) * W * W;
     }
 
@@ -184,7 +185,8 @@ SO3TangentBase<_Derived>::ljac() const
   const Scalar theta = sqrt(theta_sq); // rotation angle
 
   return Jacobian::Identity() +
-    (Scalar(1) - cos(theta)) / theta_sq * W +
+    // 1 - cos(theta) = 2 sin^2(theta/2), without cancellation for small theta
+    Scalar(2) * sin(theta / Scalar(2)) * sin(theta / Scalar(2)) / theta_sq * W +
     (theta - sin(theta)) / (theta_sq * theta) * W * W;
 }
 
@@ -214,7 +216,8 @@ SO3TangentBase<_Derived>::ljacinv() const
 
   return Jacobian::Identity() -
     Scalar(0.5) * W +
-    (Scalar(1) / theta_sq - (Scalar(1) + cos(theta)) / (Scalar(2) * theta * sin(theta))) *
+    // (1 + cos(theta)) / sin(theta) = cos(theta/2) / sin(theta/2), without the 0/0 form at pi
+    (Scalar(1) / theta_sq - cos(theta / Scalar(2)) / (Scalar(2) * theta * sin(theta / Scalar(2)))) *
     W * W;
 }
 
